@@ -21,5 +21,5 @@ T=$(/venv/bin/python -m pytest -q -p no:cacheprovider 2>&1 | tail -1)
 PYTHONPATH=src timeout 600 /venv/bin/python _seed/demo.py > mut.out 2>&1; M=$?
 echo "$S: demo clean exit=$C, demo changed exit=$M, tests: $T"
 for c in ${@:-$P}; do
-  VERIF_REPO="$D" /verif/check $c --no-evidence 2>&1 | grep -E "^VIOLATION|tier=|CRASH|VACUITY|UNDECIDED" | sed "s/^/   [$c] /" | cut -c1-260
+  VERIF_REPO="$D" /verif/check $c --no-evidence 2>&1 | grep -E "^VIOLATION|tier=|CRASH|VACUITY|UNDECIDED|failed obligation" | sed "s/^/   [$c] /" | cut -c1-260
 done
